@@ -1,7 +1,7 @@
 """C18  A db_session commits exactly when its body succeeds."""
 import ast, re
 from ..loader import dotted, walk_no_nested, norm, head, calls_in, const
-from ..q import nodes_calling, is_call_to
+from ..q import resolve_local, nodes_calling, is_call_to
 
 EXPLANATION = """
 Static clauses decided (necessary conditions of C18):
@@ -81,16 +81,19 @@ def run(ctx):
     # ------------------------------------------------------------- GATE
     cr = repo.fn(CM[0], 'DBSessionContextManager._commit_or_rollback')
     g = cg.cfg(cr)
-    gate = [t for t in g.nodes if t.kind == 'test' and isinstance(t.ast, ast.Name) and t.ast.id == 'can_commit']
     commits = nodes_calling(g, lambda c: isinstance(c.func, ast.Name) and c.func.id == 'commit')
+    # the gate: the test (whatever the flag is called) whose true edge leads to commit() and whose false edge cannot reach it
+    gate = [t for t in g.nodes if t.kind == 'test' and commits
+            and any(cn.id in g.reach([y for y, lab in g.succ[t.id] if lab == 'T']) for cn in commits)
+            and not any(cn.id in g.reach([y for y, lab in g.succ[t.id] if lab == 'F']) for cn in commits)]
     ctx.floor('C18-GATE', len(commits), 1, 'commit() sites in _commit_or_rollback')
-    ctx.floor('C18-GATE', len(gate), 1, '`if can_commit` tests')
+    ctx.floor('C18-GATE', len(gate), 1, 'tests that decide between commit and rollback')
     gate_ids = {t.id for t in gate}
     r = g.reach([g.entry], edge_ok=lambda x, y, lab: not (x in gate_ids and lab == 'T'))
     for cn in commits:
         ok = cn.id not in r
         ctx.ob('C18-GATE.commit-only-if-can_commit', cr, cn.ast, ok,
-               '' if ok else 'commit() reachable without passing the true edge of `if can_commit`', node=cn.ast)
+               '' if ok else 'commit() reachable without passing the true edge of the deciding test', node=cn.ast)
     rb = nodes_calling(g, lambda c: isinstance(c.func, ast.Name) and c.func.id == 'rollback')
     for t in gate:
         fs = [y for y, lab in g.succ[t.id] if lab == 'F']
@@ -176,7 +179,11 @@ def run(ctx):
     g = cg.cfg(nf); recv = nf.parent.recv
     loops = [n for n in g.nodes if n.kind == 'iter' and norm(n.ast.target) != '__once']      # `__once` = one-trip loop of an inlined helper
     whiles = [st for st in walk_no_nested(nf.node) if isinstance(st, ast.While)]
-    retry_loops = [l for l in loops if norm(l.ast.iter) == 'range(%s.retry + 1)' % recv]
+    def bound_of(it):
+        # range(<expr>) with a local bound once read as the expression it was given: `max_attempts = db_session.retry + 1`
+        if isinstance(it, ast.Call) and dotted(it.func) == 'range' and len(it.args) == 1: return norm(resolve_local(nf.node, it.args[0]))
+        return None
+    retry_loops = [l for l in loops if bound_of(l.ast.iter) == '%s.retry + 1' % recv]
     ok = len(retry_loops) == 1 and not whiles and len(loops) == 1
     ctx.ob('C18-RETRY.bounded-loop', nf, retry_loops[0].ast if retry_loops else nf.node, ok,
            '' if ok else 'retry loop is not exactly `for _ in range(%s.retry+1)` (loops=%s, whiles=%d)' % (
